@@ -48,6 +48,7 @@ type (
 		Forall bool
 		Vars   []Binder
 		Body   Expr
+		Hints  [][]Expr // @try(e1, e2, …): candidate witnesses for an existential goal
 	}
 	ECond struct{ C, A, B Expr }
 )
@@ -148,7 +149,7 @@ func lex(src string) ([]ctoken, error) {
 				}
 			}
 			if !matched {
-				if strings.ContainsRune("+-*/%<>!()[].,:?&|^", rune(c)) {
+				if strings.ContainsRune("+-*/%<>!()[].,:?&|^@", rune(c)) {
 					toks = append(toks, ctoken{"op", string(c)})
 					i++
 				} else {
@@ -223,6 +224,21 @@ func (p *parser) parseExpr() Expr {
 			typ := p.ident()
 			for _, n := range names {
 				q.Vars = append(q.Vars, Binder{n, typ})
+			}
+			for p.accept("@") {
+				if kw := p.ident(); kw != "try" {
+					panic(fmt.Errorf("expected @try, found @%s", kw))
+				}
+				p.expect("(")
+				var hs []Expr
+				for {
+					hs = append(hs, p.parseExpr())
+					if p.accept(")") {
+						break
+					}
+					p.expect(",")
+				}
+				q.Hints = append(q.Hints, hs)
 			}
 			if p.accept("::") {
 				break
@@ -464,8 +480,11 @@ type Watch struct {
 type SpecMacro struct {
 	Name   string
 	Params []string
+	Types  []string // parameter types (fun only)
+	IsFun  bool     // named abstraction: an SMT function with a definitional axiom
 	Body   Expr
 	Src    string
+	Pkg    string
 }
 
 type LogicFunc struct {
@@ -688,8 +707,9 @@ func (cs *ContractSet) LoadContractFile(path, pkgPath string, assumed bool) erro
 			}
 			w.Pattern = pat
 			cur.Watches = append(cur.Watches, w)
-		case "spec":
-			// spec name(a, b) := expr
+		case "spec", "fun":
+			// spec name(a, b) := expr        (macro, expanded in place)
+			// fun  name(a T, b U) := expr    (named abstraction, typed parameters)
 			i := strings.Index(rest, ":=")
 			if i < 0 {
 				return fail(fmt.Errorf("bad spec"))
@@ -699,14 +719,20 @@ func (cs *ContractSet) LoadContractFile(path, pkgPath string, assumed bool) erro
 			if j < 0 || !strings.HasSuffix(head, ")") {
 				return fail(fmt.Errorf("bad spec head"))
 			}
-			m := &SpecMacro{Name: strings.TrimSpace(head[:j]), Src: rest}
-			for _, a := range strings.Split(head[j+1:len(head)-1], ",") {
+			m := &SpecMacro{Name: strings.TrimSpace(head[:j]), Src: rest, IsFun: word == "fun", Pkg: pkgPath}
+			for _, a := range splitTop(head[j+1:len(head)-1], ',') {
 				a = strings.TrimSpace(a)
 				if a == "" {
 					continue
 				}
 				// allow "name type"
-				m.Params = append(m.Params, strings.Fields(a)[0])
+				f := strings.SplitN(a, " ", 2)
+				m.Params = append(m.Params, f[0])
+				if len(f) == 2 {
+					m.Types = append(m.Types, strings.TrimSpace(f[1]))
+				} else {
+					m.Types = append(m.Types, "")
+				}
 			}
 			e, err := ParseExpr(strings.TrimSpace(rest[i+2:]))
 			if err != nil {
